@@ -34,6 +34,7 @@ import (
 	"sort"
 	"strconv"
 	"strings"
+	"syscall"
 	"time"
 
 	engineapi "github.com/LindsayBradford/crem/cmd/cremengine/engine/api"
@@ -43,6 +44,7 @@ import (
 	solutionenc "github.com/LindsayBradford/crem/internal/pkg/annealing/solution/encoding"
 	"github.com/LindsayBradford/crem/internal/pkg/annealing/solution/set"
 	setcsv "github.com/LindsayBradford/crem/internal/pkg/annealing/solution/set/encoding/csv"
+	datasetcsv "github.com/LindsayBradford/crem/internal/pkg/dataset/csv"
 	"github.com/LindsayBradford/crem/internal/pkg/model"
 	marchive "github.com/LindsayBradford/crem/internal/pkg/model/archive"
 	"github.com/LindsayBradford/crem/internal/pkg/model/models/catchment"
@@ -213,14 +215,79 @@ func esTomlFloat(f float64) string {
 	return s
 }
 
-func esScenarioToml(dsPath string, limVar int, limit float64) string {
+// esParams are model parameters other than the data source and the limit, as TOML literals (`0.0003`, `50`), in the
+// order given: the histories stream re-posts a scenario of the SAME name with one of them edited.
+type esParams [][2]string
+
+func (ps esParams) toml() string {
 	var sb strings.Builder
-	sb.WriteString("[Scenario]\nName = \"C13\"\n[Annealer]\nType = \"Kirkpatrick\"\n[Model]\nType = \"CatchmentModel\"\n[Model.Parameters]\n")
+	for _, kv := range ps {
+		fmt.Fprintf(&sb, "%s = %s\n", kv[0], kv[1])
+	}
+	return sb.String()
+}
+
+// into adds the parameters to a crem parameter map (a literal with a `.` is a float64, any other an int64, as TOML reads them)
+func (ps esParams) into(m parameters.Map) parameters.Map {
+	for _, kv := range ps {
+		if strings.ContainsAny(kv[1], ".eE") {
+			f, _ := strconv.ParseFloat(kv[1], 64)
+			m[kv[0]] = f
+		} else {
+			i, _ := strconv.ParseInt(kv[1], 10, 64)
+			m[kv[0]] = i
+		}
+	}
+	return m
+}
+
+func (ps esParams) key() string {
+	var parts []string
+	for _, kv := range ps {
+		parts = append(parts, kv[0]+"="+kv[1])
+	}
+	return strings.Join(parts, " ")
+}
+
+func esScenarioToml(name, dsPath string, limVar int, limit float64, ps esParams) string {
+	var sb strings.Builder
+	fmt.Fprintf(&sb, "[Scenario]\nName = %q\n[Annealer]\nType = \"Kirkpatrick\"\n[Model]\nType = \"CatchmentModel\"\n[Model.Parameters]\n", name)
 	fmt.Fprintf(&sb, "DataSourcePath = %q\n", dsPath)
 	if limVar >= 0 {
 		fmt.Fprintf(&sb, "%s = %s\n", varMaxKey[limVar], esTomlFloat(limit))
 	}
+	sb.WriteString(ps.toml())
 	return sb.String()
+}
+
+// esRefWith is newRef (cmodel.go) for a scenario with edited model parameters: the reference model every served /
+// written row is re-evaluated on must be the model of THAT scenario.
+func esRefWith(dsPath string, ps esParams) (ref *Ref, err error) {
+	if len(ps) == 0 {
+		return newRef(dsPath, -1, 0)
+	}
+	defer func() {
+		if r := recover(); r != nil {
+			ref, err = nil, fmt.Errorf("panic while loading: %v", r)
+		}
+	}()
+	ds := datasetcsv.NewDataSet("CatchmentModel")
+	if e := ds.Load(dsPath); e != nil {
+		return nil, e
+	}
+	params := ps.into(parameters.Map{})
+	m := catchment.NewCoreModel().WithSourceDataSet(ds).WithParameters(params)
+	if e := m.ParameterErrors(); e != nil {
+		return nil, e
+	}
+	m.Initialise(model.AsIs)
+	cm := &CM{m: m, dsPath: dsPath, params: params, limVar: -1}
+	cm.installRand()
+	for _, pu := range m.PlanningUnits() {
+		cm.pus = append(cm.pus, pu)
+	}
+	sort.Slice(cm.pus, func(i, j int) bool { return cm.pus[i] < cm.pus[j] })
+	return &Ref{cm: cm, cache: map[string]*Snap{}}, nil
 }
 
 type esSolution struct {
@@ -388,6 +455,8 @@ type esInterp struct {
 	dsPath   string
 	limVar   int
 	limit    float64
+	params   esParams // model parameters of the scenario posted next / last (the `params` line)
+	name     string   // Scenario.Name of the scenario posted next / last
 	refs     map[string]*Ref
 	ref      *Ref
 	actKeys  []string
@@ -405,11 +474,14 @@ type esInterp struct {
 }
 
 func newEsInterp(c *Ctx) *esInterp {
-	return &esInterp{c: c, refs: map[string]*Ref{}, limVar: -1, variant: "current"}
+	return &esInterp{c: c, refs: map[string]*Ref{}, limVar: -1, variant: "current", name: "C13"}
 }
 
 func (in *esInterp) fail(sig, detail string) {
 	pred := "C13: a summary the explorer writes is accepted by the engine of the same scenario; each label returns the row's action set and values; each non-as-is encoding is a Pareto-front member"
+	if sig == "enginesummary:explorer-summary-has-duplicate-labels" {
+		pred = "C12: row labels are unique within a summary (seen from C13: the engine refuses the explorer's summary because two of its rows carry one label)"
+	}
 	if sig == "enginesummary:valid-flag-not-evaluated" {
 		pred = "C03: every solution served by the engine as valid against the scenario respects the limit (D25)"
 	}
@@ -467,6 +539,7 @@ func (in *esInterp) exec(w []string) string {
 		}
 		in.dsKind, in.dsArg, in.dsPath = w[1], arg, p
 		in.limVar, in.limit = -1, 0
+		in.params, in.name = nil, "C13"
 		if w[3] == "limit" && len(w) == 6 {
 			vi, e1 := strconv.Atoi(w[4])
 			b, e2 := strconv.ParseUint(w[5], 16, 64)
@@ -498,13 +571,66 @@ func (in *esInterp) exec(w []string) string {
 		in.eng = &esEngine{mux: esNewMux()}
 		in.cur, in.posted, in.postedPrev, in.text = nil, nil, nil, ""
 		in.served, in.servedPrev = map[string]string{}, map[string]string{}
-		st, resp, p := in.eng.do("POST", "/api/v1/scenario", "application/toml", esScenarioToml(in.dsPath, in.limVar, in.limit))
+		st, resp, p := in.eng.do("POST", "/api/v1/scenario", "application/toml", esScenarioToml(in.name, in.dsPath, in.limVar, in.limit, in.params))
 		if p != "" {
 			return "panic"
 		}
 		if st != 200 {
 			return fmt.Sprintf("status:%d:%s", st, clip(resp, 120))
 		}
+		return "ok"
+	case "params":
+		// params name=<hex of Scenario.Name> (<key>=<TOML literal>)*: the scenario the NEXT `scenario` / `rescenario` posts
+		// (same data set, same limit); the reference model is rebuilt with them.  Nothing for the Lean model (`ok`).
+		if in.ref == nil {
+			return "no-dataset"
+		}
+		var ps esParams
+		name := in.name
+		for _, t := range w[1:] {
+			kv := strings.SplitN(t, "=", 2)
+			if len(kv) != 2 {
+				return "bad-line"
+			}
+			if kv[0] == "name" {
+				n, ok := esUnhx(kv[1])
+				if !ok {
+					return "bad-line"
+				}
+				name = n
+				continue
+			}
+			ps = append(ps, [2]string{kv[0], kv[1]})
+		}
+		key := in.dsPath + " " + ps.key()
+		ref, ok := in.refs[key]
+		if !ok {
+			r, rerr := esRefWith(in.dsPath, ps)
+			if rerr != nil {
+				return "dataset-error"
+			}
+			ref = r
+			in.refs[key] = ref
+		}
+		in.params, in.name, in.ref = ps, name, ref
+		return "ok"
+	case "rescenario":
+		// the scenario (current `params`) POSTed to the SAME engine: crem builds a new model and a new pool and keeps the table
+		if in.ref == nil || in.eng == nil {
+			return "no-engine"
+		}
+		st, resp, p := in.eng.do("POST", "/api/v1/scenario", "application/toml", esScenarioToml(in.name, in.dsPath, in.limVar, in.limit, in.params))
+		if p != "" {
+			return "panic"
+		}
+		if st != 200 {
+			return fmt.Sprintf("status:%d:%s", st, clip(resp, 120))
+		}
+		// the table the engine keeps belongs to the PREVIOUS scenario: the property's clauses speak of the summary of the
+		// scenario the engine is configured with, so the direct checks pause until the next accepted summary (the
+		// answers are still compared with the model, which keeps the table too)
+		in.cur, in.posted, in.postedPrev, in.text = nil, nil, nil, ""
+		in.served, in.servedPrev = map[string]string{}, map[string]string{}
 		return "ok"
 	case "summary", "summaryx":
 		s, ok := esParseSummaryOp(w[1:])
@@ -587,7 +713,21 @@ func (in *esInterp) exec(w []string) string {
 			} else {
 				// D10 is named as the cause only when the engine's own message quotes the cast text of an encoding
 				sig, culprit := "enginesummary:summary-rejected", ""
+				seenLabel := map[string]bool{}
 				for _, r := range explorerStyle.rows {
+					if seenLabel[r.label] {
+						// C12's matter surfacing here: the explorer labelled two rows alike (before C12's round-3 repair a scenario
+						// name holding `As-Is` or `(1/1)` did that); the engine is right to refuse such a summary
+						sig = "enginesummary:explorer-summary-has-duplicate-labels"
+						culprit = fmt.Sprintf(" (the explorer-written summary labels two rows %q: C12's clause `row labels are unique within a summary` fails for this scenario name)", r.label)
+						break
+					}
+					seenLabel[r.label] = true
+				}
+				for _, r := range explorerStyle.rows {
+					if sig != "enginesummary:summary-rejected" {
+						break
+					}
 					if esCastCollides(r.enc) && esCellString(r.enc) != r.enc &&
 						strings.Contains(resp, "with value ["+esCellString(r.enc)+"] has invalid structure") {
 						sig = "enginesummary:encoding-text-lost-by-cast"
@@ -776,8 +916,20 @@ func (in *esInterp) get(label string) string {
 		fresh := snap.totals[vi]
 		rowVal, _ := strconv.ParseFloat(row.vals[k], 64)
 		tol := 0.5*math.Pow10(-varPrec[vi]) + 1e-9
-		if !(math.Abs(got-fresh) <= tol) || !(math.Abs(got-rowVal) <= 0.5e-3+tol) {
-			in.fail("enginesummary:values-differ-from-row", fmt.Sprintf("GET /api/v1/solutions/%s: %s served as %v, the row says %s, a fresh model at encoding %q gives %v", label, name, got, row.vals[k], row.enc, fresh))
+		// the row's cell is the writer's `%.3f` of the fresh model's value: compared as TEXT (a cell off by one last digit
+		// is a different text); the served figure is the same value at the variable's reporting precision (2 or 3 decimals):
+		// once parsed, the decimal the engine shows and the decimal in the row are the same number
+		cell := strconv.FormatFloat(math.Round(fresh*1000)/1000, 'f', 3, 64)
+		if cell == "-0.000" {
+			cell = "0.000"
+		}
+		rowCell := row.vals[k]
+		if rowCell == "-0.000" {
+			rowCell = "0.000"
+		}
+		shown := math.Round(rowVal*math.Pow10(varPrec[vi])) / math.Pow10(varPrec[vi])
+		if !(math.Abs(got-fresh) <= tol) || cell != rowCell || got != shown {
+			in.fail("enginesummary:values-differ-from-row", fmt.Sprintf("GET /api/v1/solutions/%s: %s served as %v, the row says %s, a fresh model at encoding %q gives %v (= %s at three decimals)", label, name, got, row.vals[k], row.enc, fresh, cell))
 			break
 		}
 	}
@@ -869,10 +1021,11 @@ func (in *esInterp) patch(enc string) string {
 type esRig struct {
 	in    *esInterp
 	model *catchment.Model
+	runId string // the id the finished run carries: Scenario.Name, or `Name (r/R)` for run r of R > 1
 }
 
 func (in *esInterp) newRig() (*esRig, error) {
-	m := catchment.NewModel().WithParameters(parameters.Map{"DataSourcePath": in.dsPath})
+	m := catchment.NewModel().WithParameters(in.params.into(parameters.Map{"DataSourcePath": in.dsPath}))
 	if e := m.ParameterErrors(); e != nil {
 		return nil, e
 	}
@@ -880,7 +1033,7 @@ func (in *esInterp) newRig() (*esRig, error) {
 	if perr = protect(func() { m.Initialise(model.AsIs) }); perr != "" {
 		return nil, fmt.Errorf("%s", perr)
 	}
-	return &esRig{in: in, model: m}, nil
+	return &esRig{in: in, model: m, runId: in.name}, nil
 }
 
 // saverSummary lets crem's real Saver write the summary of a solution set with the given action sets.
@@ -899,11 +1052,11 @@ func (rig *esRig) saverSummary(family string, members [][]bool) (string, error) 
 	ev := observer.NewEvent(observer.FinishedAnnealing)
 	if family == "single" {
 		st := (&cand{vec: []float64{1}, bits: members[0]}).state()
-		st.SetId("C13")
+		st.SetId(rig.runId)
 		ev.WithAttribute(scenario.CompressedModel, *st)
 	} else {
 		a := marchive.New()
-		a.SetId("C13")
+		a.SetId(rig.runId)
 		n := len(members)
 		for i, bits := range members {
 			a.AttemptToArchiveState((&cand{vec: []float64{float64(i), float64(n - i)}, bits: bits}).state())
@@ -927,6 +1080,7 @@ func (rig *esRig) saverSummary(family string, members [][]bool) (string, error) 
 // ---------------------------------------------------------------- real explorer runs (child process)
 
 func esChild(c *Ctx) {
+	childLifeline(240 * time.Second)
 	if len(c.Args) != 1 {
 		fmt.Fprintln(os.Stderr, "engine-summaries-child: config file expected")
 		os.Exit(42)
@@ -952,8 +1106,10 @@ type esRunConfig struct {
 	annealer string
 	iters    int
 	explore  string
-	limVar   int
+	limVar   int // unused (-1): the run's limit is the engine scenario's (`dataset … limit`), so that both have ONE scenario
 	limit    float64
+	runs     int // Scenario.RunNumber (0 = 1); with more than one run the summary of run `pick` (0-based, modulo) is taken
+	pick     int
 }
 
 func (in *esInterp) realRun(rc esRunConfig) (string, error) {
@@ -964,7 +1120,11 @@ func (in *esInterp) realRun(rc esRunConfig) (string, error) {
 	defer os.RemoveAll(work)
 	out := filepath.Join(work, "out")
 	var sb strings.Builder
-	fmt.Fprintf(&sb, "[Scenario]\nName = \"C13\"\nRunNumber = 1\nOutputPath = %q\nOutputType = \"CSV\"\nOutputLevel = \"Summary\"\n", out)
+	runs := rc.runs
+	if runs < 1 {
+		runs = 1
+	}
+	fmt.Fprintf(&sb, "[Scenario]\nName = %q\nRunNumber = %d\nOutputPath = %q\nOutputType = \"CSV\"\nOutputLevel = \"Summary\"\n", in.name, runs, out)
 	sb.WriteString("[Scenario.Reporting]\nReportEveryNumberOfIterations = 100000\n[Scenario.Reporting.LogLevelDestinations]\nAnnealing = \"Discarded\"\n")
 	fmt.Fprintf(&sb, "[Annealer]\nType = %q\n[Annealer.Parameters]\n", rc.annealer)
 	if rc.annealer == "Kirkpatrick" {
@@ -974,9 +1134,10 @@ func (in *esInterp) realRun(rc esRunConfig) (string, error) {
 	}
 	fmt.Fprintf(&sb, "StartingTemperature = 10.0\nCoolingFactor = 0.99\nMaximumIterations = %d\n", rc.iters)
 	fmt.Fprintf(&sb, "[Model]\nType = \"CatchmentModel\"\n[Model.Parameters]\nDataSourcePath = %q\n", in.dsPath)
-	if rc.limVar >= 0 {
-		fmt.Fprintf(&sb, "%s = %s\n", varMaxKey[rc.limVar], esTomlFloat(rc.limit))
+	if in.limVar >= 0 {
+		fmt.Fprintf(&sb, "%s = %s\n", varMaxKey[in.limVar], esTomlFloat(in.limit))
 	}
+	sb.WriteString(in.params.toml())
 	cf := filepath.Join(work, "scenario.toml")
 	if err := os.WriteFile(cf, []byte(sb.String()), 0o644); err != nil {
 		return "", err
@@ -987,6 +1148,7 @@ func (in *esInterp) realRun(rc esRunConfig) (string, error) {
 	}
 	cmd := exec.Command(bin, "engine-summaries-child", "-out", filepath.Join(work, "child"), cf)
 	cmd.Env = append(os.Environ(), "GOMEMLIMIT=2GiB")
+	cmd.SysProcAttr = &syscall.SysProcAttr{Setpgid: true} // its own process group: the watchdog below kills the group
 	var outBuf strings.Builder
 	cmd.Stdout, cmd.Stderr = &outBuf, &outBuf
 	if err := cmd.Start(); err != nil {
@@ -1000,15 +1162,16 @@ func (in *esInterp) realRun(rc esRunConfig) (string, error) {
 			return "", fmt.Errorf("explorer run failed: %v: %s", werr, clip(outBuf.String(), 600))
 		}
 	case <-time.After(180 * time.Second):
-		cmd.Process.Kill()
+		killGroup(cmd)
 		<-done
 		return "", fmt.Errorf("explorer run timed out")
 	}
 	files, _ := filepath.Glob(filepath.Join(out, "*-Summary.csv"))
-	if len(files) != 1 {
-		return "", fmt.Errorf("the run left %d summary files in %s", len(files), out)
+	if len(files) != runs {
+		return "", fmt.Errorf("the %d run(s) left %d summary files in %s", runs, len(files), out)
 	}
-	b, err := os.ReadFile(files[0])
+	sort.Strings(files)
+	b, err := os.ReadFile(files[rc.pick%len(files)])
 	return string(b), err
 }
 
@@ -1103,7 +1266,10 @@ func esBucket(n int) string {
 	case n <= 30:
 		return "21-30"
 	}
-	return "31-41"
+	if n <= 41 {
+		return "31-41"
+	}
+	return ">41"
 }
 
 func esPerm(r *Rng, n int) []int {
@@ -1212,13 +1378,17 @@ func (g *esGen) startCase(kind string, arg int, limit string) bool {
 
 // scenarioLine carries the scenario the model needs: number of actions, decision-variable names and
 // the as-is values of a fresh model.
-func (g *esGen) scenarioLine() string {
+func (g *esGen) scenarioLine() string { return g.scenarioLineOf("scenario") }
+
+// scenarioLineOf: `scenario` = a fresh engine, `rescenario` = the same engine; either carries what the model needs of
+// the scenario the harness posts (current data set and `params`): number of actions and the as-is values of a fresh model.
+func (g *esGen) scenarioLineOf(op string) string {
 	in := g.in
 	asIs := in.ref.at(make([]bool, in.n()))
 	names := append([]string(nil), varNames...)
 	sort.Strings(names)
 	var sb strings.Builder
-	fmt.Fprintf(&sb, "scenario %d %d", in.n(), len(names))
+	fmt.Fprintf(&sb, "%s %d %d", op, in.n(), len(names))
 	for _, nm := range names {
 		for j, vn := range varNames {
 			if vn == nm {
@@ -1227,6 +1397,15 @@ func (g *esGen) scenarioLine() string {
 		}
 	}
 	return sb.String()
+}
+
+// sameEngine posts the scenario (current `params`) to the engine already running.
+func (g *esGen) sameEngine() bool {
+	if res := g.in.do(g.scenarioLineOf("rescenario")); res != "ok" {
+		g.in.fail("enginesummary:panic", "POST /api/v1/scenario of a valid catchment scenario to a running engine answered "+res)
+		return false
+	}
+	return true
 }
 
 func (g *esGen) newEngine() bool {
@@ -1277,7 +1456,7 @@ func suiteEngineSummaries(c *Ctx) {
 		arg  int
 	}
 	shipped := []dsPick{{"shipped", 0}, {"shipped", 1}, {"shipped", 2}}
-	big := []dsPick{{"replicated", 4}, {"replicated", 64}, {"replicated", 5}, {"replicated", 6}}
+	big := []dsPick{{"replicated", 4}, {"replicated", 64}, {"replicated", 5}, {"replicated", 6}, {"replicated", 10}}
 
 	caseNo := 0
 	mine := func() bool { caseNo++; return caseNo%c.Shards == c.Shard }
@@ -1291,21 +1470,78 @@ func suiteEngineSummaries(c *Ctx) {
 		{annealer: "Suppapitnarm", iters: 1500, explore: "ParticulateNitrogen,OpportunityCost", limVar: -1},
 		{annealer: "AveragedSuppapitnarm", iters: 2500, explore: "", limVar: -1},
 	}
-	nRuns := c.N(3, len(runs)*3)
+	// scenario names of the real runs: the saver derives every label from the id `<name>[ (r/R)] Solution (…)`; blanks,
+	// `3/4`, parentheses, `As-Is`, `(1/1)` in the NAME must not leak into the labels (C12's round-3 repair of
+	// deriveSummaryIdFromSolution: before it such a summary had duplicate labels and the engine answered 400)
+	runNames := []string{"C13", "Run 3/4 test", "two  blanks", "trial (1/1)", "As-Is baseline", "Best Solution"}
+	nRuns := c.N(4, len(runs)*4)
+	seedShift := int(g.r.Intn(len(runNames) * len(runs)))
 	for i := 0; i < nRuns; i++ {
 		if !mine() {
 			continue
 		}
-		rc := runs[i%len(runs)]
+		rc := runs[(i+seedShift)%len(runs)]
 		ds := shipped[(i/len(runs))%len(shipped)]
 		if c.Thorough() && i >= len(runs)*2 {
 			ds = big[i%len(big)]
 		}
-		if !g.startCase(ds.kind, ds.arg, "nolimit") || !g.newEngine() {
+		name := runNames[(i+seedShift/len(runs))%len(runNames)]
+		if i%3 == 2 {
+			rc.runs, rc.pick = 3, g.r.Intn(3)
+			if rc.iters > 400 {
+				rc.iters = 400
+			}
+		}
+		limitSpec := "nolimit"
+		if i%2 == 1 {
+			// the explorer AND the engine get one limited scenario: a limit strictly between the attainable extremes of one variable
+			if !g.startCase(ds.kind, ds.arg, "nolimit") {
+				continue
+			}
+			vi := []int{4, 0, 5, 1, 2, 3}[(i/2+seedShift)%6]
+			all := make([]bool, in.n())
+			for j := range all {
+				all[j] = true
+			}
+			lo, hi := in.ref.at(make([]bool, in.n())).totals[vi], in.ref.at(all).totals[vi]
+			if hi < lo {
+				lo, hi = hi, lo
+			}
+			// `lo` is the valid starting extreme of either kind of limit (no action active for a cost, every action active
+			// for a pollutant); the limit stays in the lower half of the range, so that the explorer's limit seeking ends on an
+			// invalid attempt long before its attempt budget (= number of actions) runs out
+			limit := math.Round((lo+(hi-lo)*(0.25+0.25*g.r.Float()))*1000) / 1000
+			if vi >= 4 {
+				limit = math.Round(limit)
+			}
+			if limit > lo && limit < hi {
+				limitSpec = fmt.Sprintf("limit %d %s", vi, floatBits(limit))
+			}
+		}
+		if !g.startCase(ds.kind, ds.arg, limitSpec) {
+			continue
+		}
+		c.Stat(fmt.Sprintf("real run: name class=%s runs=%d limited=%v", esNameClass(name), max1(rc.runs), limitSpec != "nolimit"))
+		if name != "C13" && in.do("params name="+esHx(name)) != "ok" {
+			continue
+		}
+		if !g.newEngine() {
 			continue
 		}
 		text, err := in.realRun(rc)
 		if err != nil {
+			if limitSpec != "nolimit" && strings.Contains(err.Error(), "Attempt limit reached while seeking a solution near configured decision variable limit") {
+				// the explorer itself refused to start from this limit (its randomised limit seeking used up its attempts):
+				// no summary was produced, nothing for the property to say
+				c.Stat("real run: BOUNDARY limited scenario not started by the explorer (attempt limit)")
+				continue
+			}
+			if limitSpec != "nolimit" && strings.Contains(err.Error(), "explorer run timed out") {
+				// crem's limit seeking can spin under a limit (DESIGN.md 10.7): no summary, nothing for the property to say
+				c.Stat("real run: BOUNDARY limited scenario did not finish (child process group killed)")
+				c.Note("BOUNDARY engine-summaries: a limited real explorer run did not finish within 180 s; left out")
+				continue
+			}
 			in.fail("enginesummary:panic", "real explorer run ("+rc.annealer+"): "+err.Error())
 			continue
 		}
@@ -1335,8 +1571,16 @@ func suiteEngineSummaries(c *Ctx) {
 		if i >= 40 {
 			size = 1 + g.r.Intn(40)
 		}
+		switch {
+		case i%20 == 7:
+			size = 0 // a multi-objective run whose archive is empty: the summary is the As-Is row alone
+		case i%20 == 13:
+			size = 41 + g.r.Intn(30) // beyond 40 solutions: three-digit `k-of-n` labels start at 100, two-digit ones here
+		case i%40 == 27 && c.Thorough():
+			size = 100 + g.r.Intn(30)
+		}
 		family := "multi"
-		if g.r.Chance(0.12) {
+		if size > 0 && size <= 40 && g.r.Chance(0.12) {
 			family, size = "single", 1
 		}
 		var encs []string
@@ -1368,8 +1612,19 @@ func suiteEngineSummaries(c *Ctx) {
 		for j, p := range esPerm(g.r, len(members)) {
 			members[j], members[p] = members[p], members[j]
 		}
-		if len(members) == 0 {
+		if len(members) == 0 && size != 0 {
 			continue
+		}
+		// the run id the saver is handed: the scenario's name, or `name (r/R)` as a run of a multi-run scenario carries it;
+		// names outside C12's former `Clean` alphabet included
+		if g.r.Chance(0.4) {
+			nm := []string{"C13", "Run 3/4 test", "two  blanks", "trial (1/1)", "As-Is baseline", "Best Solution", "x (y) z", "a/b"}[g.r.Intn(8)]
+			if g.r.Chance(0.5) {
+				R := []int{2, 3, 10, 11, 100}[g.r.Intn(5)]
+				nm = fmt.Sprintf("%s (%d/%d)", nm, 1+g.r.Intn(R), R)
+			}
+			rig.runId = nm
+			c.Stat("saver run id class=" + esNameClass(nm))
 		}
 		text, err := rig.saverSummary(family, members)
 		if err != nil {
@@ -1386,6 +1641,19 @@ func suiteEngineSummaries(c *Ctx) {
 				g.exercise(text2, "saver multi (re-post)")
 			}
 		}
+	}
+
+	// ---- (iv) histories on ONE engine: summaries, rejected posts, the same-named scenario re-posted with an edited parameter
+	nHist := c.N(6, 120)
+	for i := 0; i < nHist; i++ {
+		if !mine() {
+			continue
+		}
+		ds := shipped[g.r.Intn(len(shipped))]
+		if g.r.Chance(0.2) {
+			ds = big[g.r.Intn(len(big))]
+		}
+		g.history(i, ds.kind, ds.arg)
 	}
 
 	// ---- D25 stream: the engine's scenario carries a limit the (unlimited) summary's solutions exceed
@@ -1455,6 +1723,159 @@ func suiteEngineSummaries(c *Ctx) {
 			continue
 		}
 		g.malformed(i)
+	}
+}
+
+// ---------------------------------------------------------------- histories
+
+func max1(n int) int {
+	if n < 1 {
+		return 1
+	}
+	return n
+}
+
+func esNameClass(name string) string {
+	var cls []string
+	for _, t := range []struct{ sub, cls string }{{"As-Is", "As-Is"}, {"(1/1)", "(1/1)"}, {"Solution", "Solution"}, {"/", "slash"}, {"(", "paren"}, {" ", "blank"}} {
+		if strings.Contains(name, t.sub) {
+			cls = append(cls, t.cls)
+		}
+	}
+	if len(cls) == 0 {
+		return "plain"
+	}
+	return strings.Join(cls, "+")
+}
+
+// esParamEdits: one model parameter set to a non-default value (TOML literal).  Each changes the as-is value of at
+// least one decision variable on the shipped data (SedimentProduction and the nitrogen variables follow the bank /
+// gully / hill-slope terms), which is what the engine's As-Is check compares.
+var esParamEdits = [][2]string{
+	{"BankErosionFudgeFactor", "0.0003"}, {"BankErosionFudgeFactor", "0.0005"}, {"GullyCompensationFactor", "0.4"},
+	{"SedimentDensity", "1.6"}, {"SuspendedSedimentProportion", "0.4"}, {"HillSlopeDeliveryRatio", "0.06"},
+	{"YearsOfErosion", "50"}, {"WaterDensity", "1.1"}, {"LocalAcceleration", "9.8"},
+}
+
+func (g *esGen) saverText(family string, size int) (string, bool) {
+	in := g.in
+	rig, err := in.newRig()
+	if err != nil {
+		in.fail("enginesummary:panic", "catchment model for the saver: "+err.Error())
+		return "", false
+	}
+	members := g.randomMembers(size, map[string]bool{})
+	if family == "single" {
+		members = members[:1]
+	}
+	text, err := rig.saverSummary(family, members)
+	if err != nil {
+		in.fail("enginesummary:panic", "the real Saver on a harness-built solution set: "+err.Error())
+		return "", false
+	}
+	return text, true
+}
+
+// history drives ONE engine through: scenario, summary S1 (every label, every encoding), a rejected POST (S1 must still
+// be served), then 1-3 rounds of { the scenario of the SAME NAME re-posted with one model parameter edited (or
+// unedited), [labels of the stale table: model comparison only], the summary the explorer writes for THAT scenario -
+// which must be accepted and served label by label }.  The as-is values the engine checks a summary against must be
+// those of the scenario it holds NOW.
+func (g *esGen) history(i int, kind string, arg int) {
+	in, c, r := g.in, g.in.c, g.r
+	if !g.startCase(kind, arg, "nolimit") {
+		return
+	}
+	name := []string{"C13", "Kirkpatrick", "tweak and re-run", "As-Is baseline"}[r.Intn(4)]
+	var ps esParams
+	if r.Chance(0.3) {
+		ps = esParams{esParamEdits[r.Intn(len(esParamEdits))]}
+	}
+	paramsLine := func() string {
+		l := "params name=" + esHx(name)
+		for _, kv := range ps {
+			l += " " + kv[0] + "=" + kv[1]
+		}
+		return l
+	}
+	if in.do(paramsLine()) != "ok" || !g.newEngine() {
+		return
+	}
+	family := []string{"multi", "multi", "single"}[r.Intn(3)]
+	size := 1 + r.Intn(6)
+	text, ok := g.saverText(family, size)
+	if !ok {
+		return
+	}
+	c.Stat("history: engine started")
+	if !g.exercise(text, "history, first summary ("+family+")") {
+		return
+	}
+	first, _ := esParseSummaryText(text)
+	// a POST the engine rejects changes nothing: every label is still served with its row
+	if r.Chance(0.7) {
+		// … whatever stage rejects it: the CSV reader, the header / cell checks, or the comparison of the As-Is row with
+		// the scenario (a summary of ANOTHER scenario: one as-is value altered)
+		other := *first
+		other.rows = append([]esRow(nil), first.rows...)
+		other.rows[0].vals = append([]string(nil), first.rows[0].vals...)
+		other.rows[0].vals[r.Intn(len(other.rows[0].vals))] = []string{"1.000", "0.001", "123456.789"}[r.Intn(3)]
+		otherText, _ := other.marshal()
+		bad := []string{"", "Solution\nx\n", "Solution, Actions, Summary\nAs-Is, zz, n\n", strings.Replace(text, "As-Is", "As-Was", 1), strings.Replace(text, "\n", ", extra\n", 1), otherText, otherText}[r.Intn(7)]
+		res := in.do("posttext " + esHx(bad))
+		c.Stat("history: interleaved malformed post " + res)
+		for _, row := range first.rows {
+			in.do("get " + esHx(row.label))
+		}
+	}
+	rounds := 1 + r.Intn(3)
+	for k := 0; k < rounds; k++ {
+		before := ps.key()
+		switch r.Intn(4) {
+		case 0:
+			ps = nil // back to crem's defaults
+		case 1: // unchanged: the very same scenario text posted again
+		default:
+			ps = esParams{esParamEdits[r.Intn(len(esParamEdits))]}
+		}
+		c.Stat(fmt.Sprintf("history: same-named scenario re-posted, parameters changed=%v", before != ps.key()))
+		if in.do(paramsLine()) != "ok" || !g.sameEngine() {
+			return
+		}
+		if r.Chance(0.5) {
+			// the table the engine still holds is the previous scenario's; its labels resolve against a NEW pool
+			for _, row := range first.rows {
+				in.do("get " + esHx(row.label))
+			}
+		}
+		fam2, size2 := family, size
+		if r.Chance(0.3) {
+			fam2, size2 = "multi", 1+r.Intn(8)
+		}
+		var text2 string
+		if c.Thorough() && r.Chance(0.15) {
+			rc := esRunConfig{annealer: "Suppapitnarm", iters: 300, explore: "SedimentProduction,ImplementationCost", limVar: -1}
+			if fam2 == "single" {
+				rc = esRunConfig{annealer: "Kirkpatrick", iters: 200, explore: "SedimentProduction", limVar: -1}
+			}
+			t2, err := in.realRun(rc)
+			if err != nil {
+				in.fail("enginesummary:panic", "real explorer run ("+rc.annealer+"): "+err.Error())
+				return
+			}
+			text2 = t2
+		} else {
+			t2, ok := g.saverText(fam2, size2)
+			if !ok {
+				return
+			}
+			text2 = t2
+		}
+		if !g.exercise(text2, "history, summary of the re-posted scenario ("+fam2+")") {
+			return
+		}
+		first, _ = esParseSummaryText(text2)
+		c.Nontrivial(fmt.Sprintf("history|%s|%s|%d", in.dsPath, ps.key(), len(first.rows)))
 	}
 }
 
@@ -1612,6 +2033,9 @@ func (g *esGen) malformed(i int) {
 	case 10:
 		kind = "fewer variable columns"
 		k := r.Intn(len(s.names))
+		if r.Chance(0.4) {
+			k = 0
+		}
 		s.names = s.names[:k]
 		for j := range s.rows {
 			s.rows[j].vals = s.rows[j].vals[:k]
@@ -1653,6 +2077,11 @@ func (g *esGen) malformed(i int) {
 			return
 		}
 		s2, perr := esParseSummaryText(text)
+		if len(s.names) == 0 {
+			// no variable column: the writer joins the (empty) value list into an empty field, so every row has one field
+			// more than the header - the model's Row.fields follows joinAttributes; the rows go to it as they are
+			s2, perr = s, nil
+		}
 		if perr != nil || len(s2.rows) != len(s.rows) || len(s2.names) != len(s.names) {
 			c.Stat("malformed (rows through the real marshaler, posted as raw text): " + kind)
 			post := in.do("posttext " + esHx(text))
